@@ -1048,15 +1048,16 @@ where
                     hs_noncmplt = Some(c);
                 }
             }
+            // A production that still references a rule of unknown cost only has a lower bound
+            // for its cost, so it can end up costing more than the current highest complete
+            // production: the rule's cost can only be fixed once all of its productions are
+            // complete (or one of them is known to be unbounded).
             if let Some(high_cmplt) = hs_cmplt
-                && (hs_noncmplt.is_none() || hs_cmplt > hs_noncmplt)
+                && (hs_noncmplt.is_none() || high_cmplt == u16::MAX)
             {
                 debug_assert!(high_cmplt >= costs[i]);
                 costs[i] = high_cmplt;
                 done[i] = true;
-            } else if let Some(hs_noncmplt) = hs_noncmplt {
-                debug_assert!(hs_noncmplt >= costs[i]);
-                costs[i] = hs_noncmplt;
             }
         }
         if all_done {
